@@ -6,7 +6,7 @@
 From Coq Require Import List ZArith Bool Arith Lia.
 From SC Require Import Base.Res Base.PyList Inst.Heap Inst.ClassTable Inst.Model Inst.Canon
   Inst.Abs Inst.SpecHelpers Inst.ElemProofs Inst.Framed Inst.RefineProofs Inst.CopyProofs Inst.ElemRefine
-  Inst.ElemRefine2 Inst.ElemRefine3 Inst.ElemRefine4 Inst.ElemRefine5 Inst.ElemRefine6.
+  Inst.ElemRefine2 Inst.ElemRefine3 Inst.ElemRefine4 Inst.ElemRefine5 Inst.ElemRefine6 Inst.ElemRefine7.
 Import ListNotations.
 Open Scope nat_scope.
 
@@ -497,6 +497,42 @@ Section GuardedCopy.
     destruct o as [| |xs|]; try discriminate Hk. destruct G as [Gl Gc Ga Gd Gdnc Gpc Gni Gdep Gfld Glc Go Gflat Ginit Ga0].
     exact (without_item_set_copy_refines ct h0 l a c d k sp s lc xs ity Gl Gc Ga Gd Gdnc Gpc Gni Hty
              Gfld Glc Go Gflat Ginit Ga0 voi Hv).
+  Qed.
+  Theorem transform_item_list_copy_guarded voi fo bi :
+    copy_guard ct s l a KList = true -> proper_elems s l a = true -> fail_at s = None ->
+    nonref voi = true -> is_missing voi = false ->
+    match fo with Some f => pool_fn f = true | None => True end ->
+    by_value_ok ct s l a voi bi = true ->
+    copy_refines_spec ct h0 s l (HTransformItem a) (mkh [voi] false true VMissing false bi None [] fo)
+                      (STransformItem a) (mkah [abs0 voi] false true AMissing false bi None [] fo).
+  Proof.
+    intros H Hpe Hfa Hv Hm Hfo Hbv. cfacts KList H c d k sp lc o G Hk Hsp Hob.
+    destruct (a_ty sp) as [| | | | | | |ity| |ity'|] eqn:Hty; try discriminate Hk.
+    destruct o as [xs| | |]; try discriminate Hk.
+    destruct G as [Gl Gc Ga Gd Gdnc Gpc Gni Gdep Gfld Glc Go Gflat Ginit Ga0].
+    unfold proper_elems in Hpe. rewrite (list_of_list s l a xs Hob) in Hpe.
+    exact (transform_item_list_copy_refines ct h0 l a c d k sp s lc xs ity Gl Gc Ga Gd Gdnc Gpc Gni Hty
+             (depth_list sp ity Hty Gdep) Gfld Glc Hpe Gflat Ginit Ga0 voi fo bi Hv Hm Hfa Hfo
+             (by_value_ok_facts ct s l a sp ity xs voi bi Hsp Hty (list_of_list s l a xs Hob) Hbv)).
+  Qed.
+
+  Theorem update_item_list_copy_guarded voi v bi :
+    copy_guard ct s l a KList = true -> proper_elems s l a = true -> plain_items ct s l a = true ->
+    nonref voi = true -> is_missing voi = false -> nonref v = true ->
+    vscalar v || by_value_ok ct s l a voi bi = true ->
+    copy_refines_spec ct h0 s l (HUpdateItem a) (mkh [voi; v] false true VMissing false bi None [] None)
+                      (SUpdateItem a) (mkah [abs0 voi; abs0 v] false true AMissing false bi None [] None).
+  Proof.
+    intros H Hpe Hp Hv Hm Hnv Hbv. cfacts KList H c d k sp lc o G Hk Hsp Hob.
+    destruct (a_ty sp) as [| | | | | | |ity| |ity'|] eqn:Hty; try discriminate Hk.
+    destruct o as [xs| | |]; try discriminate Hk.
+    destruct G as [Gl Gc Ga Gd Gdnc Gpc Gni Gdep Gfld Glc Go Gflat Ginit Ga0].
+    unfold proper_elems in Hpe. rewrite (list_of_list s l a xs Hob) in Hpe.
+    destruct (plain_items_facts ct s l a sp Hsp Hp) as [P1 P2]. rewrite Hty in P2. cbn [item_type] in P2.
+    refine (update_item_list_copy_refines ct h0 l a c d k sp s lc xs ity Gl Gc Ga Gd Gdnc Gpc Gni Hty
+             (depth_list sp ity Hty Gdep) Gfld Glc Hpe Gflat Ginit Ga0 voi v bi P1 P2 Hv Hm Hnv _).
+    intros Hsv Hb. rewrite Hsv in Hbv. cbn [orb] in Hbv.
+    exact (by_value_ok_facts ct s l a sp ity xs voi bi Hsp Hty (list_of_list s l a xs Hob) Hbv Hb).
   Qed.
 End GuardedCopy.
 
